@@ -51,6 +51,37 @@ def ring_scalar(z, M):
     return {"c": v, "k": int(k)}
 
 
+def ring_scalar_any(z, M):
+    """like ring_scalar, but also recognises unit-modulus lattice phases zeta_N^j (a one-dimensional lattice: sound)."""
+    z = complex(z)
+    N = 1 << M
+    if abs(abs(z) - 1) < 1e-10:
+        j = np.angle(z) * N / (2 * math.pi)
+        if abs(j - round(j)) < 1e-8:
+            j = int(round(j)) % N
+            v = [0] * (N // 2)
+            if j < N // 2:
+                v[j] = 1
+            else:
+                v[j - N // 2] = -1
+            return {"c": v, "k": 0}
+    return ring_scalar(z, M)
+
+
+def lift(t):
+    """the same term with its lattice integers re-expressed one ring level higher (angle unit halves)."""
+    out = dict(t)
+    if "p" in t:
+        out["p"] = [2 * a for a in t["p"]]
+    if "e" in t:
+        out["e"] = 2 * t["e"]
+    if "a" in t:
+        out["a"] = lift(t["a"])
+    if "as" in t:
+        out["as"] = [None if s is None else lift(s) for s in t["as"]]
+    return out
+
+
 def ring_scalar_value(sc, M):
     return lib.ring_to_complex(sc["c"], sc["k"], M)
 
@@ -286,13 +317,15 @@ def root_leaf(rng, labels, M):
     return G(rng.choice(["S", "T", "SX"]), rng.sample(labels, 1))
 
 
-def rand_term(rng, d, labels, angles, M, unitary=False, maxw=4):
-    """random term of depth <= d over the wire labels."""
+def rand_term(rng, d, labels, angles, M, unitary=False, cob=True):
+    """random term of depth <= d over the wire labels (cob=False: no change_op_basis below, used under sum / s_prod, where
+    PennyLane documents no matrix for ChangeOpBasis operands)."""
     if d == 0 or rng.random() < 0.12:
         return leaf(rng, labels, angles)
-    kinds_ = ["adj", "pow", "ctrl", "prod", "sprod", "exp", "cob", "root"] + ([] if unitary else ["sum", "sum"])
+    kinds_ = ["adj", "pow", "ctrl", "prod", "sprod", "exp", "root"] + ([] if unitary else ["sum", "sum"]) + (["cob"] if cob else [])
     k = rng.choice(kinds_)
-    sub = lambda u=False, lab=labels: rand_term(rng, d - 1, lab, angles, M, unitary=u or unitary, maxw=maxw)
+    below = cob and k not in ("sum", "sprod")
+    sub = lambda u=False, lab=labels: rand_term(rng, d - 1, lab, angles, M, unitary=u or unitary, cob=below)
     if k == "adj":
         return {"t": "adj", "a": sub()}
     if k == "pow":
@@ -493,15 +526,20 @@ def num_eval(program, n, M):
 
 
 # ----------------------------------------------------------------------------------------- TLC runner (TermEval.tla)
-def evaluate(pid, cases, M, name="terms", module="TermEval", workers=None, timeout=3000, chunk=4000):
-    """cases: [{"n", "emit": 0/1, "a": program, "bs": [{"b": program, "rel", "perm", ...}]}]
-    -> (verdicts {(case index, output index): (clause, errA, errB)}, emitted {case index: ring matrix}, stats)."""
+def evaluate(pid, cases, M, name="terms", module="TermEval", outs="bs", workers=None, timeout=3000, chunk=4000):
+    """cases: [{"n", "emit": 0/1, "a": program, outs: [output records]}]  (TermEval.tla: outs = "bs", Trace_Reps.tla: "reps")
+    -> (verdicts {(case index, output index): (clause, errA, errB)}, emitted {case index: ring matrix of Sem(a),
+        (case index, output index): ring matrix of an "emitx" output}, stats)."""
     verdicts, emitted = {}, {}
     stats = {"generated": 0, "distinct": 0, "wall_s": 0.0, "runs": 0}
     for c in cases:
         c.setdefault("emit", 0)
-        for o in c["bs"]:
-            o.setdefault("perm", [])
+        for o in c[outs]:
+            if outs == "bs":
+                o.setdefault("perm", [])
+            else:
+                for k, dflt in (("exc", ""), ("rel", "none"), ("b", []), ("ev", []), ("ps", [])):
+                    o.setdefault(k, dflt)
     for off in range(0, len(cases), chunk):
         part = cases[off:off + chunk]
         wd = lib.workdir(pid, f"{name}_{M}_{off}")
@@ -521,7 +559,7 @@ def evaluate(pid, cases, M, name="terms", module="TermEval", workers=None, timeo
         stats["distinct"] += r.distinct
         stats["wall_s"] += r.wall_s
         stats["runs"] += 1
-    expected = sum(len(c["bs"]) for c in cases)
+    expected = sum(len(c[outs]) for c in cases)
     if len(verdicts) != expected:
         raise lib.MachineryError(f"{module}: verdicts are not total: {len(verdicts)} of {expected}")
     return verdicts, emitted, stats
